@@ -14,6 +14,7 @@ import (
 	"math/big"
 	"os"
 	"reflect"
+	"strings"
 	"sync"
 
 	hio "github.com/hprose/hprose-golang/v3/io"
@@ -44,6 +45,13 @@ type A struct {
 type R struct {
 	V    int
 	Next *R
+}
+type regInner struct {
+	Name string `custom:"nm"`
+}
+type regOuter struct {
+	In regInner  `custom:"in"`
+	P  *regInner `custom:"p"`
 }
 
 func main() {
@@ -154,6 +162,84 @@ func main() {
 	}
 	o.Evaluations += nIndep
 	o.Info["independence_cases"] = nIndep
+	// ---- (e) registration histories: every sequence of up to four operations out of {register the inner type
+	// with its tag, register the outer type with its tag, use the inner type, use the outer type}, followed by
+	// the registration of both (in either order), leaves the coders in the state that the registration alone
+	// produces: same bytes, fields preserved by a round trip. A registry that answers from what an earlier
+	// use has cached (the field map of the inner type built without the tag when the outer type was
+	// registered first) fails this.
+	hio.VerifSnapshotRegistries()
+	regOps := []struct {
+		name string
+		run  func()
+	}{
+		{"register-inner", func() { hio.Register((*regInner)(nil), "custom") }},
+		{"register-outer", func() { hio.Register((*regOuter)(nil), "custom") }},
+		{"use-inner", func() {
+			b, _ := hio.Marshal(regInner{"u"})
+			var v regInner
+			hio.Unmarshal(b, &v)
+		}},
+		{"use-outer", func() {
+			b, _ := hio.Marshal(&regOuter{regInner{"u"}, &regInner{"v"}})
+			var v *regOuter
+			hio.Unmarshal(b, &v)
+		}},
+	}
+	observe := func() string {
+		bi, e1 := hio.Marshal(regInner{"x"})
+		bo, e2 := hio.Marshal(&regOuter{regInner{"y"}, &regInner{"z"}})
+		var vi regInner
+		var vo *regOuter
+		e3 := hio.Unmarshal(bi, &vi)
+		e4 := hio.Unmarshal(bo, &vo)
+		back := "outer lost"
+		if vo != nil && vo.P != nil {
+			back = vo.In.Name + "," + vo.P.Name
+		}
+		return fmt.Sprintf("inner=%q outer=%q errors=%v,%v,%v,%v round-trip: inner.Name=%q outer.In.Name,outer.P.Name=%q", bi, bo, e1, e2, e3, e4, vi.Name, back)
+	}
+	var nReg int64
+	for _, closing := range [][]int{{0, 1}, {1, 0}} {
+		hio.VerifResetRegistries()
+		for _, c := range closing {
+			regOps[c].run()
+		}
+		ref := observe()
+		if !strings.Contains(ref, `inner.Name="x"`) || !strings.Contains(ref, `"y,z"`) {
+			add("registry|round-trip-loses-a-field-after-registration", fmt.Sprintf("registration %v alone: %s", closing, ref))
+		}
+		var seq []int
+		var rec func()
+		rec = func() {
+			hio.VerifResetRegistries()
+			var names []string
+			for _, x := range seq {
+				regOps[x].run()
+				names = append(names, regOps[x].name)
+			}
+			for _, c := range closing {
+				regOps[c].run()
+				names = append(names, regOps[c].name)
+			}
+			nReg++
+			if got := observe(); got != ref {
+				add("registry|state-after-registration-depends-on-earlier-uses", fmt.Sprintf("history %v: %s; the final registrations alone give %s", names, got, ref))
+			}
+			if len(seq) == 4 {
+				return
+			}
+			for x := range regOps {
+				seq = append(seq, x)
+				rec()
+				seq = seq[:len(seq)-1]
+			}
+		}
+		rec()
+	}
+	hio.VerifResetRegistries()
+	o.Evaluations += nReg
+	o.Info["registration_histories"] = nReg
 	// ---- (d) free-running race pass ----
 	hio.VerifSnapshotRegistries()
 	rounds := 300
